@@ -681,15 +681,99 @@ func checkC19(c *Ctx) {
 	// ---------------- R19.5 ----------------
 	ne := c.Func(zp, "newEncoder")
 	if c.Anchor("R19.5", "zap.newEncoder", ne != nil) {
-		AllInstrs(ne, func(i ssa.Instruction) {
-			if l, ok := i.(*ssa.Lookup); ok && strings.HasSuffix(Desc(l.X), "_encoderNameToConstructor") {
-				dnf := PathConds(l.Block())
-				ok, cex := AllDisjunctsHave(dnf, func(s string) bool {
-					return s == `encoderConfig.TimeKey == ""` || s == "encoderConfig.EncodeTime != nil"
-				})
-				c.Check(ok, "R19.5", ne.String(), "time-encoder-validated", l.Pos(), "the constructor lookup is reached only with TimeKey empty or EncodeTime set (counter-example: %v)", cex)
+		// by path exploration (helpers inline): every path that consults the constructor registry has established that
+		// the configuration's TimeKey is empty or its EncodeTime is set
+		cfgField := func(v ssa.Value) string {
+			for k := 0; k < 6; k++ {
+				switch x := v.(type) {
+				case *ssa.ChangeType:
+					v = x.X
+					continue
+				case *ssa.UnOp:
+					if x.Op == token.MUL {
+						if fa, ok := x.X.(*ssa.FieldAddr); ok && strings.HasSuffix(TypeName(deref(fa.X.Type())), "EncoderConfig") {
+							return fieldName(fa.X.Type(), fa.Field)
+						}
+					}
+				case *ssa.Field:
+					if strings.HasSuffix(TypeName(x.X.Type()), "EncoderConfig") {
+						if st, ok := types.Unalias(x.X.Type()).Underlying().(*types.Struct); ok {
+							return st.Field(x.Field).Name()
+						}
+					}
+				}
+				break
 			}
+			return ""
+		}
+		seqs, trunc := ConcPaths(ne, ConcCfg{
+			Event: func(in ssa.Instruction, st *ConcState) string {
+				if l, ok := in.(*ssa.Lookup); ok {
+					if mt, isM := types.Unalias(l.X.Type()).Underlying().(*types.Map); isM && strings.Contains(mt.Elem().String(), "EncoderConfig") {
+						return "lookup"
+					}
+				}
+				return ""
+			},
+			Branch: func(cond ssa.Value, taken bool, st *ConcState) string {
+				pol := taken
+				for k := 0; k < 8; k++ {
+					if u, ok := cond.(*ssa.UnOp); ok && u.Op == token.NOT {
+						cond, pol = u.X, !pol
+						continue
+					}
+					if nx := st.Step(cond); nx != nil {
+						cond = nx
+						continue
+					}
+					break
+				}
+				bo, ok := cond.(*ssa.BinOp)
+				if !ok || bo.Op != token.EQL && bo.Op != token.NEQ {
+					return ""
+				}
+				eq := (bo.Op == token.EQL) == pol
+				x, y := bo.X, bo.Y
+				if cfgField(x) == "" {
+					x, y = y, x
+				}
+				switch cfgField(x) {
+				case "TimeKey":
+					if s, isS := ConstString(y); isS && s == "" {
+						if eq {
+							return "timekey-empty"
+						}
+						return "timekey-set"
+					}
+				case "EncodeTime":
+					if IsNilConst(y) {
+						if eq {
+							return "encodetime-nil"
+						}
+						return "encodetime-set"
+					}
+				}
+				return ""
+			},
 		})
+		var bad []string
+		nLookup := 0
+		for _, sq := range seqs {
+			toks := strings.Split(sq, " ; ")
+			okSoFar := false
+			for _, t := range toks {
+				switch t {
+				case "timekey-empty", "encodetime-set":
+					okSoFar = true
+				case "lookup":
+					nLookup++
+					if !okSoFar {
+						bad = append(bad, sq)
+					}
+				}
+			}
+		}
+		c.Check(!trunc && nLookup > 0 && len(bad) == 0, "R19.5", ne.String(), "time-encoder-validated", ne.Pos(), "on every one of the %d explored paths (helpers inline) the constructor lookup is reached only after TimeKey was found empty or EncodeTime set (offending: %v)", len(seqs), bad)
 	}
 }
 
